@@ -277,29 +277,7 @@ func C07(c *Ctx) {
 		r.Check(found, "C07.wire", "(*ab/remember.Remember).Init", "After("+ev+")->RememberAfterAuth", pos, "registered", "remember does not register RememberAfterAuth on After("+ev+")")
 	}
 
-	// (7) oauth2 pass-along reset
-	if st := c.P.FuncOpt("(*ab/oauth2.OAuth2).Start"); st != nil {
-		stateKey := c.P.ConstString("", "SessionOAuth2State")
-		paramsKey := c.P.ConstString("", "SessionOAuth2Params")
-		n := 0
-		for _, op := range c.StateOps(st) {
-			if op.Op == "put" && op.Store == "session" && op.Key == stateKey {
-				n++
-				q := PathQuery{From: op.Call.(ssa.Instruction), Cut: Or(c.isStateOp("put", "session", paramsKey), c.isStateOp("del", "session", paramsKey)), Goal: func(i ssa.Instruction) bool {
-					ret, ok := i.(*ssa.Return)
-					return ok && !c.isErrorExit(ret)
-				}}
-				if p := q.Find(); p != nil {
-					r.Bad("C07.params-reset", FuncName(st), "PutSession(oauth2_state)=>Put|Del(oauth2_params)", posf(c, op.Call), "a new OAuth2 flow can start without overwriting or deleting the pass-along parameters of an earlier flow: a stale rm=true would issue a remember cookie nobody asked for", c.P.DescribePath(p)...)
-				} else {
-					r.Ok("C07.params-reset", FuncName(st), "PutSession(oauth2_state)=>Put|Del(oauth2_params)", posf(c, op.Call), "every started flow overwrites or deletes the pass-along parameters")
-				}
-			}
-		}
-		if n == 0 {
-			r.Unknown("C07.params-reset", FuncName(st), "PutSession(oauth2_state)", "-", "Start does not store a state")
-		}
-	}
+	c.oauthParamsReset("C07.params-reset")
 }
 
 // tokenHalves: the store gets result #0 (hash) and the client result #1
@@ -542,4 +520,34 @@ func derivesFromValue(v, target ssa.Value, d int) bool {
 		return derivesFromValue(x.Tuple, target, d+1)
 	}
 	return false
+}
+
+// oauthParamsReset: every started OAuth2 flow overwrites or deletes the
+// pass-along parameters an earlier, abandoned flow left in the session (they
+// carry the remember-me wish and the return target).
+func (c *Ctx) oauthParamsReset(rule string) {
+	r := c.R
+	// (7) oauth2 pass-along reset
+	if st := c.P.FuncOpt("(*ab/oauth2.OAuth2).Start"); st != nil {
+		stateKey := c.P.ConstString("", "SessionOAuth2State")
+		paramsKey := c.P.ConstString("", "SessionOAuth2Params")
+		n := 0
+		for _, op := range c.StateOps(st) {
+			if op.Op == "put" && op.Store == "session" && op.Key == stateKey {
+				n++
+				q := PathQuery{From: op.Call.(ssa.Instruction), Cut: Or(c.isStateOp("put", "session", paramsKey), c.isStateOp("del", "session", paramsKey)), Goal: func(i ssa.Instruction) bool {
+					ret, ok := i.(*ssa.Return)
+					return ok && !c.isErrorExit(ret)
+				}}
+				if p := q.Find(); p != nil {
+					r.Bad(rule, FuncName(st), "PutSession(oauth2_state)=>Put|Del(oauth2_params)", posf(c, op.Call), "a new OAuth2 flow can start without overwriting or deleting the pass-along parameters of an earlier flow: a stale rm=true would issue a remember cookie nobody asked for", c.P.DescribePath(p)...)
+				} else {
+					r.Ok(rule, FuncName(st), "PutSession(oauth2_state)=>Put|Del(oauth2_params)", posf(c, op.Call), "every started flow overwrites or deletes the pass-along parameters")
+				}
+			}
+		}
+		if n == 0 {
+			r.Unknown(rule, FuncName(st), "PutSession(oauth2_state)", "-", "Start does not store a state")
+		}
+	}
 }
